@@ -14,6 +14,8 @@ package main
 
 import (
 	"fmt"
+	"os"
+	"path/filepath"
 	"regexp"
 	"sort"
 	"strings"
@@ -107,7 +109,17 @@ type c07Pipe struct {
 
 	retFirst, retLast       int
 	retainFirst, retainLast int
+	hdrFirst, hdrLast       int
 	features                []string
+}
+
+// chain: the pipelines of the program in source order (innermost first)
+func (p *c07Pipe) chain() []*c07Pipe {
+	var out []*c07Pipe
+	for q := p; q != nil; q = q.inner {
+		out = append([]*c07Pipe{q}, out...)
+	}
+	return out
 }
 
 func c07FieldsEnc(fs []c17Field) string {
@@ -181,6 +193,7 @@ func c07StageText(sb *strings.Builder, st *c07PCallee, retain []string) {
 
 func (p *c07Pipe) text(sb *strings.Builder) {
 	line := func() int { return strings.Count(sb.String(), "\n") + 1 }
+	p.hdrFirst = line()
 	fmt.Fprintf(sb, "pipeline %s(\n", p.name)
 	for _, f := range p.ins {
 		fmt.Fprintf(sb, "    in  %s %s,\n", f.t.mro(), f.id)
@@ -188,6 +201,7 @@ func (p *c07Pipe) text(sb *strings.Builder) {
 	for _, f := range p.outs {
 		fmt.Fprintf(sb, "    out %s %s,\n", f.t.mro(), f.id)
 	}
+	p.hdrLast = line()
 	sb.WriteString(")\n{\n")
 	for _, s := range p.calls {
 		s.first = line()
@@ -271,11 +285,31 @@ func (p *c07Pipe) program() string {
 	for _, st := range p.extra {
 		c07StageText(&sb, st, nil)
 	}
-	if p.inner != nil {
-		p.inner.text(&sb)
+	for _, q := range p.chain() {
+		q.text(&sb)
 	}
-	p.text(&sb)
 	return sb.String()
+}
+
+// programSplit: the same program with the types, the stages and the nested
+// pipelines in an include file (written to dir) and only P in the main file.
+func (p *c07Pipe) programSplit(dir, incName string) (string, error) {
+	var inc strings.Builder
+	inc.WriteString(c07Decls)
+	for _, st := range p.extra {
+		c07StageText(&inc, st, nil)
+	}
+	ch := p.chain()
+	for _, q := range ch[:len(ch)-1] {
+		q.text(&inc)
+	}
+	if err := os.WriteFile(filepath.Join(dir, incName), []byte(inc.String()), 0o644); err != nil {
+		return "", err
+	}
+	var sb strings.Builder
+	fmt.Fprintf(&sb, "@include %q\n\n", incName)
+	p.text(&sb)
+	return sb.String(), nil
 }
 
 func (p *c07Pipe) topCall() string {
@@ -364,8 +398,10 @@ func c07GenPipe(c *Ctx) *c07Pipe {
 	for i, n := 0, rng.Intn(4); i < n; i++ {
 		p.ins = append(p.ins, c17Field{fmt.Sprintf("s%d", i), c07RandType(rng)})
 	}
-	// SINK: uses every input (no UnusedInputError)
-	if len(p.ins) > 0 {
+	// SINK: uses every input (no UnusedInputError); sometimes left out
+	if len(p.ins) > 0 && !clean && rng.Intn(3) == 0 {
+		feat("no_sink")
+	} else if len(p.ins) > 0 {
 		sink := &c07PCallee{name: "SINK", isStage: true, params: p.ins, outs: []c17Field{{"r", c07B("int")}}}
 		p.extra = append(p.extra, sink)
 		st := &c07PStm{id: "SINK", callee: sink, mode: 's', src: "-"}
@@ -426,6 +462,68 @@ func c07GenPipe(c *Ctx) *c07Pipe {
 		}
 		in.calls = []*c07PStm{ist}
 		in.retWild = &c07Wild{e: c07Ref('c', "IPROD")}
+		// a second level: INNER calls INNER2 (singly, over an array, over a map) and hands
+		// some of its outputs on, so that P sees them through two calls
+		if rng.Intn(2) == 0 {
+			l2 := &c07Pipe{name: "INNER2"}
+			for i, n := 0, rng.Intn(3); i < n; i++ {
+				l2.ins = append(l2.ins, c17Field{fmt.Sprintf("b%d", i), c07RandType(rng)})
+			}
+			for i, n := 0, 1+rng.Intn(2); i < n; i++ {
+				l2.outs = append(l2.outs, c17Field{fmt.Sprintf("w%d", i), c07RandType(rng)})
+			}
+			iprod2 := &c07PCallee{name: "IPROD2", isStage: true, params: l2.ins, outs: l2.outs}
+			p.extra = append(p.extra, iprod2)
+			ist2 := &c07PStm{id: "IPROD2", callee: iprod2, mode: 's', src: "-"}
+			if len(l2.ins) > 0 {
+				ist2.wild = &c07Wild{self: true}
+			}
+			l2.calls = []*c07PStm{ist2}
+			l2.retWild = &c07Wild{e: c07Ref('c', "IPROD2")}
+			in.inner = l2
+			c2 := &c07PStm{id: "INNER2", callee: &c07PCallee{name: "INNER2", isStage: false, params: l2.ins, outs: l2.outs}, mode: 's', src: "-"}
+			how := rng.Intn(3)
+			if len(l2.ins) == 0 {
+				how = 0
+			}
+			for i, a := range l2.ins {
+				w := c07Witness(a.t)
+				switch {
+				case i == 0 && how == 1:
+					c2.mode, c2.src = 'a', "A 2"
+					c2.binds = append(c2.binds, c07NamedBind{a.id, c07Bind{split: true, e: c07Arr(w, w)}})
+				case i == 0 && how == 2:
+					c2.mode, c2.src = 'm', "K "+hxList([]string{"ka", "kb"})
+					c2.binds = append(c2.binds, c07NamedBind{a.id, c07Bind{split: true, e: &c07Exp{kind: 'm', keys: []string{"ka", "kb"}, elems: []*c07Exp{w, w}}}})
+				default:
+					c2.binds = append(c2.binds, c07NamedBind{a.id, c07Bind{e: w}})
+				}
+			}
+			in.calls = append(in.calls, c2)
+			for i, o := range l2.outs {
+				t := o.t
+				switch c2.mode {
+				case 'a':
+					t = c07A(t)
+				case 'm':
+					if t.isMapInside() {
+						continue // map<map…> cannot be declared (and the reference is rejected)
+					}
+					t = c07M(t)
+				}
+				if near() && c2.mode != 's' {
+					t = o.t // declared without the dimension of the map call
+					feat("nested2_output_declared_unlifted")
+				}
+				z := c17Field{fmt.Sprintf("z%d", i), t}
+				in.outs = append(in.outs, z)
+				in.ret = append(in.ret, c07NamedBind{z.id, c07Bind{e: c07Ref('c', "INNER2", o.id)}})
+			}
+			feat("nested_pipeline_2_levels")
+			if c2.mode != 's' {
+				feat("nested_pipeline_2_levels_inner_mapped")
+			}
+		}
 		p.inner = in
 		callee := &c07PCallee{name: "INNER", isStage: false, params: in.ins, outs: in.outs}
 		st := &c07PStm{id: "INNER", callee: callee, mode: 's', src: "-"}
@@ -762,7 +860,7 @@ var c07ClassKeywords = []struct{ kw, class string }{
 	{"ConflictingModifiers", "conflict"}, {"UnsupportedTagError", "unsupported"},
 	{"PreflightBindingError", "preBinding"}, {"PreflightOutputError", "preOutput"},
 	{"inconsistent split", "mapping"}, {"MapCallError", "mapping"}, {"SplitTypeMismatch", "mapping"},
-	{"RetainParamError", "retain"}, {"DuplicateCallError", "dupcall"},
+	{"RetainParamError", "retain"}, {"DuplicateCallError", "dupcall"}, {"UnusedInputError", "unused"},
 }
 
 // a reference that does not resolve, reported on its own (not as the reason of a TypeMismatchError):
@@ -816,207 +914,297 @@ func c07SetStr(m map[string]bool) string {
 
 // ---- judging one pipeline ----
 
+var c07IncCounter int
+
+// programs accepted by model and compiler that call a nested pipeline: run in Tier A afterwards
+var c07NestedRun []string
+
+func c07CompileWithPaths(src string, paths []string) (ast *syntax.Ast, err error) {
+	defer func() {
+		if p := recover(); p != nil {
+			err = fmt.Errorf("PANIC: %v", p)
+		}
+	}()
+	_, _, ast, err = syntax.ParseSourceBytes([]byte(src), "pipeline.mro", paths, false)
+	return ast, err
+}
+
+func c07CallGraphPaths(src string, paths []string) (err error) {
+	defer func() {
+		if p := recover(); p != nil {
+			err = fmt.Errorf("PANIC: %v", p)
+		}
+	}()
+	_, _, ast, err := syntax.ParseSourceBytes([]byte(src), "pipeline.mro", paths, false)
+	if err != nil {
+		return fmt.Errorf("with the top-level call the program no longer compiles: %v", err)
+	}
+	_, err = ast.MakePipelineCallGraph("ID.ps.", ast.Call)
+	return err
+}
+
+// c07CheckRegion: the compiler's error must be located in the statement of q
+// the model rejects, with the same set of error classes.
+func c07CheckRegion(c *Ctx, q *c07Pipe, mf []string, cerr error, in map[string]interface{}) {
+	r := c.Res
+	lo, hi := 0, 0
+	want := map[string]bool{}
+	region := mf[0]
+	switch mf[0] {
+	case "call":
+		var k int
+		fmt.Sscan(mf[1], &k)
+		lo, hi = q.calls[k].first, q.calls[k].last
+		region = "call:" + mf[2]
+		if mf[2] == "dupcall" {
+			want["dupcall"] = true
+		} else if len(mf) > 3 {
+			for _, cl := range strings.Split(mf[3], ",") {
+				want[cl] = true
+			}
+		}
+	case "unused":
+		lo, hi = q.hdrFirst, q.hdrLast
+		want["unused"] = true
+	case "ret":
+		lo, hi = q.retFirst, q.retLast
+		if len(mf) > 1 {
+			for _, cl := range strings.Split(mf[1], ",") {
+				want[cl] = true
+			}
+		}
+	case "retain":
+		lo, hi = q.retainFirst, q.retainLast
+	}
+	r.hist("pipe_reject_" + region)
+	got := map[string]bool{}
+	hit := false
+	for ln, cls := range c07ErrClasses(cerr) {
+		if ln >= lo && ln <= hi {
+			hit = true
+			for k := range cls {
+				got[k] = true
+			}
+		}
+	}
+	if !hit {
+		r.violate(Violation{Kind: "property", Key: "C07:pipe:location:" + region,
+			What:  "the compile error of a rejected pipeline is not located in the statement the model rejects",
+			Input: in, Expect: fmt.Sprintf("pipeline %s lines %d-%d", q.name, lo, hi), Impl: firstLine(cerr.Error())})
+		return
+	}
+	if mf[0] == "retain" {
+		return // any error located in the retain list
+	}
+	if mf[0] == "unused" && len(mf) > 1 {
+		// the compiler names the first unused input in declaration order
+		first := unhx(strings.Split(mf[1], ",")[0])
+		if !strings.Contains(cerr.Error(), "input parameter '"+first+"'") {
+			r.violate(Violation{Kind: "correspondence", Key: "C07:pipe:unused-input-name", What: "the UnusedInputError does not name the first input the model finds unused",
+				Input: in, Model: first, Impl: firstLine(cerr.Error()), Broken: "correspondence unusedInputs ~ compilePipelineArgs"})
+		}
+	}
+	// a `mapping` error next to other errors is a consequence; a mods failure of class dup/type
+	// ends Modifiers.compile, the bindings of the same call are still checked
+	if len(want) > 1 || !want["mapping"] {
+		delete(got, "mapping")
+	}
+	// a wildcard over a reference that does not resolve: the compiler reports the resolution error
+	// (and, when the struct type is still known, goes on to the members)
+	if want["wildcard"] && got["resolve"] {
+		got["wildcard"] = true
+	}
+	delete(got, "resolve")
+	missing := []string{}
+	for k := range want {
+		if !got[k] {
+			missing = append(missing, k)
+		}
+	}
+	extra := []string{}
+	for k := range got {
+		if !want[k] {
+			extra = append(extra, k)
+		}
+	}
+	sort.Strings(missing)
+	sort.Strings(extra)
+	if len(missing) > 0 {
+		r.violate(Violation{Kind: "correspondence", Key: "C07:pipe:class-missing:" + region + ":" + strings.Join(missing, ","),
+			What:  "an error class the model reports for the rejected statement is not in the compiler's error",
+			Input: in, Model: c07SetStr(want), Impl: c07SetStr(got), Broken: "correspondence modErrs/callErrsW ~ error classes of Modifiers.compile/BindStms.compile"})
+	} else if len(extra) > 0 && mf[0] == "call" && mf[2] == "mods" {
+		// the bindings of a call whose modifiers are rejected are still checked by the compiler
+		r.hist("pipe_mods_rejected_binds_also")
+	} else if len(extra) > 0 {
+		r.violate(Violation{Kind: "correspondence", Key: "C07:pipe:class-extra:" + region + ":" + strings.Join(extra, ","),
+			What:  "the compiler reports an error class for the rejected statement that the model does not",
+			Input: in, Model: c07SetStr(want), Impl: c07SetStr(got), Broken: "correspondence modErrs/callErrsW ~ error classes of Modifiers.compile/BindStms.compile"})
+	}
+}
+
 func c07JudgePipe(c *Ctx, p *c07Pipe, class string) {
 	r := c.Res
-	src := p.program()
-	reqs := [][]string{{"C07.pipe", p.enc()}}
-	if p.inner != nil {
-		reqs = append(reqs, []string{"C07.pipe", p.inner.enc()})
+	chain := p.chain()
+	reqs := make([][]string, len(chain))
+	for i, q := range chain {
+		reqs[i] = []string{"C07.pipe", q.enc()}
 	}
-	reps := c.Drv.AskBatch(reqs)
-	verdict := reps[0]
-	ast, cerr := c07RealCompile(src)
+	verdicts := c.Drv.AskBatch(reqs)
+	innerOk := true
+	for _, v := range verdicts[:len(verdicts)-1] {
+		if !strings.HasPrefix(v, "ok") {
+			innerOk = false
+		}
+	}
+	// every third program with nested pipelines keeps only P in the main file and
+	// everything else in an include file (errors are then located in the main file only)
+	var paths []string
+	src := ""
+	if innerOk && len(chain) > 1 && c.Rng.Intn(3) == 0 {
+		c07IncCounter++
+		name := fmt.Sprintf("c07inc_%d.mro", c07IncCounter)
+		if m, err := p.programSplit(c.Scratch, name); err == nil {
+			src, paths = m, []string{c.Scratch}
+			defer os.Remove(filepath.Join(c.Scratch, name))
+			r.hist("pipe_with_include_file")
+		}
+	}
+	if src == "" {
+		src = p.program()
+	}
+	ast, cerr := c07CompileWithPaths(src, paths)
 	r.count(src, true)
 	r.hist("pipe_" + class)
 	for _, f := range p.features {
 		r.hist("pipe_feature_" + f)
 	}
-	in := map[string]interface{}{"program": src, "model": verdict, "features": strings.Join(p.features, ",")}
+	model := strings.Join(verdicts, " | ")
+	in := map[string]interface{}{"program": src, "model": model, "features": strings.Join(p.features, ",")}
+	if paths != nil {
+		if b, err := os.ReadFile(filepath.Join(c.Scratch, fmt.Sprintf("c07inc_%d.mro", c07IncCounter))); err == nil {
+			in["include_file"] = string(b)
+		}
+	}
 	if cerr != nil {
 		in["compiler_error"] = cerr.Error()
 	}
-	if strings.HasPrefix(verdict, "bad-op") || strings.HasPrefix(verdict, "model-inconsistent") {
-		r.violate(Violation{Kind: "correspondence", Key: "C07:pipe:driver:" + strings.Fields(verdict)[0], What: "the driver could not judge a generated pipeline: " + verdict,
-			Input: in, Broken: "Driver.C07.diagPipe ~ validPipeline"})
-		return
-	}
-	if len(reps) > 1 && !strings.HasPrefix(reps[1], "ok") {
-		r.violate(Violation{Kind: "correspondence", Key: "C07:pipe:inner-rejected", What: "the model rejects the by-construction valid nested pipeline: " + reps[1],
-			Input: in, Broken: "correspondence checkPipeline ~ Pipeline.compile"})
-		return
+	modelOk := true
+	for _, v := range verdicts {
+		if strings.HasPrefix(v, "bad-op") || strings.HasPrefix(v, "model-inconsistent") || v == "" {
+			r.violate(Violation{Kind: "correspondence", Key: "C07:pipe:driver:" + firstWord(v), What: "the driver could not judge a generated pipeline: " + v,
+				Input: in, Broken: "Driver.C07.diagPipe ~ validPipelineU"})
+			return
+		}
+		if !strings.HasPrefix(v, "ok") {
+			modelOk = false
+		}
 	}
 	if cerr != nil && strings.HasPrefix(cerr.Error(), "PANIC") {
 		r.violate(Violation{Kind: "property", Key: "C07:pipe:compiler-panic", What: "the compiler panics on a generated pipeline: " + firstLine(cerr.Error()), Input: in})
 		return
 	}
-	mf := strings.Fields(verdict)
-	modelOk := mf[0] == "ok"
 	r.hist(fmt.Sprintf("pipe_model=%v_impl=%v", modelOk, cerr == nil))
 	if modelOk != (cerr == nil) {
-		r.violate(Violation{Kind: "correspondence", Key: fmt.Sprintf("C07:pipe:accept:model=%v,impl=%v:%s", modelOk, cerr == nil, mf[0]),
+		which := "ok"
+		for _, v := range verdicts {
+			if !strings.HasPrefix(v, "ok") {
+				which = firstWord(v)
+			}
+		}
+		r.violate(Violation{Kind: "correspondence", Key: fmt.Sprintf("C07:pipe:accept:model=%v,impl=%v:%s", modelOk, cerr == nil, which),
 			What:  "the model's checkPipeline and the real compiler disagree on accepting a pipeline",
-			Input: in, Model: verdict, Impl: fmt.Sprint(cerr), Broken: "correspondence checkPipeline ~ Pipeline.compile/compilePipelineArgs"})
+			Input: in, Model: model, Impl: fmt.Sprint(cerr), Broken: "correspondence checkPipelineU ~ Pipeline.compile/compilePipelineArgs"})
 		if cerr == nil {
-			if err := c07CallGraph(src + p.topCall()); err != nil {
+			if err := c07CallGraphPaths(src+p.topCall(), paths); err != nil {
 				r.violate(Violation{Kind: "property", Key: "C07:pipe:ill-typed-accepted:callgraph-fails",
 					What:  "the compiler accepts a pipeline the model rejects, and invoking it fails: " + firstLine(err.Error()),
-					Input: map[string]interface{}{"program": src + p.topCall(), "model": verdict, "error": err.Error()}})
+					Input: map[string]interface{}{"program": src + p.topCall(), "model": model, "error": err.Error()}})
 			}
 		}
 		return
 	}
 	if !modelOk {
-		// region and classes
-		lo, hi := 0, 0
-		want := map[string]bool{}
-		region := mf[0]
-		switch mf[0] {
-		case "call":
-			var k int
-			fmt.Sscan(mf[1], &k)
-			lo, hi = p.calls[k].first, p.calls[k].last
-			region = "call:" + mf[2]
-			if mf[2] == "dupcall" {
-				want["dupcall"] = true
-			} else if len(mf) > 3 {
-				for _, cl := range strings.Split(mf[3], ",") {
-					want[cl] = true
-				}
+		// the compiler checks the calls of ALL pipelines first (every failure is reported), and only
+		// then, pipeline by pipeline in source order, unused inputs / return / retain (first failure)
+		var callFails []int
+		firstBad := -1
+		for i, v := range verdicts {
+			if strings.HasPrefix(v, "call ") {
+				callFails = append(callFails, i)
 			}
-		case "ret":
-			lo, hi = p.retFirst, p.retLast
-			if len(mf) > 1 {
-				for _, cl := range strings.Split(mf[1], ",") {
-					want[cl] = true
-				}
-			}
-		case "retain":
-			lo, hi = p.retainFirst, p.retainLast
-		}
-		r.hist("pipe_reject_" + region)
-		got := map[string]bool{}
-		hit := false
-		for ln, cls := range c07ErrClasses(cerr) {
-			if ln >= lo && ln <= hi {
-				hit = true
-				for k := range cls {
-					got[k] = true
-				}
+			if firstBad < 0 && !strings.HasPrefix(v, "ok") {
+				firstBad = i
 			}
 		}
-		if !hit {
-			r.violate(Violation{Kind: "property", Key: "C07:pipe:location:" + region,
-				What:  "the compile error of a rejected pipeline is not located in the statement the model rejects",
-				Input: in, Expect: fmt.Sprintf("lines %d-%d", lo, hi), Impl: firstLine(cerr.Error())})
-			return
+		if len(callFails) == 0 {
+			callFails = []int{firstBad}
 		}
-		if mf[0] == "retain" {
-			return // any error located in the retain list
-		}
-		// a `mapping` error next to other errors is a consequence; a mods failure of class dup/type
-		// ends Modifiers.compile, the bindings of the same call are still checked
-		if len(want) > 1 || !want["mapping"] {
-			delete(got, "mapping")
-		}
-		// a wildcard over a reference that does not resolve: the compiler reports the resolution error
-		// (and, when the struct type is still known, goes on to the members)
-		if want["wildcard"] && got["resolve"] {
-			got["wildcard"] = true
-		}
-		delete(got, "resolve")
-		missing := []string{}
-		for k := range want {
-			if !got[k] {
-				missing = append(missing, k)
+		for _, i := range callFails {
+			if i < len(chain)-1 {
+				r.hist("pipe_reject_in_nested_pipeline")
 			}
-		}
-		extra := []string{}
-		for k := range got {
-			if !want[k] {
-				extra = append(extra, k)
-			}
-		}
-		sort.Strings(missing)
-		sort.Strings(extra)
-		if len(missing) > 0 {
-			r.violate(Violation{Kind: "correspondence", Key: "C07:pipe:class-missing:" + region + ":" + strings.Join(missing, ","),
-				What:  "an error class the model reports for the rejected statement is not in the compiler's error",
-				Input: in, Model: c07SetStr(want), Impl: c07SetStr(got), Broken: "correspondence modErrs/callErrsW ~ error classes of Modifiers.compile/BindStms.compile"})
-		} else if len(extra) > 0 && mf[0] == "call" && mf[2] == "mods" {
-			// the bindings of a call whose modifiers are rejected are still checked by the compiler
-			r.hist("pipe_mods_rejected_binds_also")
-		} else if len(extra) > 0 {
-			r.violate(Violation{Kind: "correspondence", Key: "C07:pipe:class-extra:" + region + ":" + strings.Join(extra, ","),
-				What:  "the compiler reports an error class for the rejected statement that the model does not",
-				Input: in, Model: c07SetStr(want), Impl: c07SetStr(got), Broken: "correspondence modErrs/callErrsW ~ error classes of Modifiers.compile/BindStms.compile"})
+			c07CheckRegion(c, chain[i], strings.Fields(verdicts[i]), cerr, in)
 		}
 		return
 	}
-	// accepted by both: call modes and static split shapes
-	for _, f := range mf[1:] {
-		kv := strings.SplitN(f, ":", 2)
-		if len(kv) != 2 {
-			continue
-		}
-		id := unhx(kv[0])
-		for _, pl := range ast.Pipelines {
-			if pl.Id != p.name {
+	// accepted by both: call modes and static split shapes, in every pipeline
+	for qi, q := range chain {
+		for _, f := range strings.Fields(verdicts[qi])[1:] {
+			kv := strings.SplitN(f, ":", 2)
+			if len(kv) != 2 {
 				continue
 			}
-			for _, call := range pl.Calls {
-				if call.Id != id {
+			id := unhx(kv[0])
+			for _, pl := range ast.Pipelines {
+				if pl.Id != q.name {
 					continue
 				}
-				gotShape := "-"
-				switch call.CallMode() {
-				case syntax.ModeArrayCall:
-					gotShape = "A?"
-					if call.Mapping != nil && call.Mapping.KnownLength() {
-						gotShape = fmt.Sprintf("A%d", call.Mapping.ArrayLength())
+				for _, call := range pl.Calls {
+					if call.Id != id {
+						continue
 					}
-				case syntax.ModeMapCall:
-					gotShape = "K?"
-					if call.Mapping != nil && call.Mapping.KnownLength() {
-						var ks []string
-						for k := range call.Mapping.Keys() {
-							ks = append(ks, k)
+					gotShape := "-"
+					switch call.CallMode() {
+					case syntax.ModeArrayCall:
+						gotShape = "A?"
+						if call.Mapping != nil && call.Mapping.KnownLength() {
+							gotShape = fmt.Sprintf("A%d", call.Mapping.ArrayLength())
+						}
+					case syntax.ModeMapCall:
+						gotShape = "K?"
+						if call.Mapping != nil && call.Mapping.KnownLength() {
+							var ks []string
+							for k := range call.Mapping.Keys() {
+								ks = append(ks, k)
+							}
+							sort.Strings(ks)
+							gotShape = "K" + hxList(ks)
+						}
+					case syntax.ModeSingleCall:
+					default:
+						gotShape = "mode:" + call.CallMode().String()
+					}
+					wantShape := kv[1]
+					if strings.HasPrefix(wantShape, "K") && wantShape != "K?" {
+						ks := strings.Split(wantShape[1:], ",")
+						for i := range ks {
+							ks[i] = unhx(ks[i])
 						}
 						sort.Strings(ks)
-						gotShape = "K" + hxList(ks)
+						wantShape = "K" + hxList(ks)
 					}
-				case syntax.ModeSingleCall:
-				default:
-					gotShape = "mode:" + call.CallMode().String()
-				}
-				wantShape := kv[1]
-				if strings.HasPrefix(wantShape, "K") && wantShape != "K?" {
-					ks := strings.Split(wantShape[1:], ",")
-					for i := range ks {
-						ks[i] = unhx(ks[i])
+					r.hist("pipe_call_shape_checked")
+					if gotShape != wantShape {
+						r.violate(Violation{Kind: "correspondence", Key: "C07:pipe:call-shape", What: "call mode / static split shape of an accepted call differ between model and compiler",
+							Input: in, Model: q.name + "." + id + ":" + wantShape, Impl: q.name + "." + id + ":" + gotShape, Broken: "correspondence checkCalls/modeOf ~ checkMappings/CallMode"})
 					}
-					sort.Strings(ks)
-					wantShape = "K" + hxList(ks)
-				}
-				r.hist("pipe_call_shape_checked")
-				if gotShape != wantShape {
-					r.violate(Violation{Kind: "correspondence", Key: "C07:pipe:call-shape", What: "call mode / static split shape of an accepted call differ between model and compiler",
-						Input: in, Model: id + ":" + wantShape, Impl: id + ":" + gotShape, Broken: "correspondence checkCalls/modeOf ~ checkMappings/CallMode"})
 				}
 			}
 		}
 	}
-	nested := false
-	for _, f := range p.features {
-		if f == "preflight_bound_to_call_nested" {
-			nested = true
-		}
-	}
-	if nested {
-		r.hist("pipe_preflight_nested_call_ref_accepted")
-		return // known finding C07:preflight-nested-call-ref (see c07PreflightWitness): do not invoke
-	}
 	r.hist("pipe_callgraph_checked")
-	if err := c07CallGraph(src + p.topCall()); err != nil {
+	if err := c07CallGraphPaths(src+p.topCall(), paths); err != nil {
 		if strings.Contains(err.Error(), "cannot be bound inside an untyped map") || strings.Contains(err.Error(), "cannot be assinged to untyped map: contains reference") {
 			r.hist("pipe_invoke_fails_pipeline_struct_into_untyped_map")
 			r.violate(Violation{Kind: "property", Key: c07UntypedMapKey,
@@ -1027,6 +1215,159 @@ func c07JudgePipe(c *Ctx, p *c07Pipe, class string) {
 		r.violate(Violation{Kind: "property", Key: "C07:pipe:accepted-but-callgraph-fails",
 			What:  "a pipeline the compiler accepts cannot be resolved when it is invoked: " + firstLine(err.Error()),
 			Input: map[string]interface{}{"program": src + p.topCall(), "error": err.Error()}})
+		return
+	}
+	if p.inner != nil && paths == nil && !strings.Contains(src, " local ") && !strings.Contains(src, "local = true") {
+		// (stages marked local are run by the real local job manager, which Tier A does not provide)
+		c07NestedRun = append(c07NestedRun, src+p.topCall())
+	}
+	if c.Rng.Intn(2) == 0 {
+		c07JudgeTop(c, p, src, paths)
+	}
+}
+
+func firstWord(s string) string {
+	f := strings.Fields(s)
+	if len(f) == 0 {
+		return "empty"
+	}
+	return f[0]
+}
+
+// ---- the top-level call statement ----
+
+// c07JudgeTop: a generated `call P(…)` after an accepted program: literal
+// arguments (type-directed, with near-misses), sometimes a reference, a
+// wildcard, a modifier or a `map call` over literals; model (C07.top =
+// checkTop) vs the real compiler, error located in the statement, and an
+// accepted call must resolve (MakePipelineCallGraph).
+func c07JudgeTop(c *Ctx, p *c07Pipe, src string, paths []string) {
+	r := c.Res
+	rng := c.Rng
+	miss := []int{0, 0, 8, 4}[rng.Intn(4)]
+	near := func() bool { return miss > 0 && rng.Intn(miss) == 0 }
+	g := &c07Gen{rng: rng, env: &c07Env{}, miss: miss, noBogus: true}
+	st := &c07PStm{id: p.name, callee: &c07PCallee{name: p.name, isStage: false, params: p.ins, outs: p.outs}}
+	var feats []string
+	if rng.Intn(4) == 0 {
+		// a stage without outputs, declared right before the call: local / volatile are legal here,
+		// preflight and disabled are not
+		st = &c07PStm{id: "TOPST", callee: &c07PCallee{name: "TOPST", isStage: true, params: []c17Field{{"x", c07B("int")}, {"y", c07A(c07B("string"))}}}}
+		var sb strings.Builder
+		c07StageText(&sb, st.callee, nil)
+		src += sb.String()
+		feats = append(feats, "stage")
+		switch rng.Intn(6) {
+		case 0:
+			st.mods.kwP = true
+			feats = append(feats, "stage_preflight")
+		case 1:
+			st.mods.using = append(st.mods.using, c07ModItem{tag: 'R', b: rng.Intn(3) != 0})
+			feats = append(feats, "stage_preflight")
+		case 2:
+			st.mods.kwL = true
+		case 3:
+			st.mods.using = append(st.mods.using, c07ModItem{tag: 'V', b: true})
+		}
+	}
+	ins := st.callee.params
+	mapIt := len(ins) > 0 && rng.Intn(5) == 0
+	for i, a := range ins {
+		switch {
+		case near() && rng.Intn(2) == 0:
+			st.binds = append(st.binds, c07NamedBind{a.id, c07Bind{e: []*c07Exp{c07Ref('r', a.id), c07Ref('c', "PROD", "o0"), c07Arr(c07Ref('r', a.id))}[rng.Intn(3)]}})
+			feats = append(feats, "reference")
+		case near():
+			feats = append(feats, "missing") // not bound
+		case mapIt && i == 0:
+			st.binds = append(st.binds, c07NamedBind{a.id, c07Bind{split: true, e: c07Arr(g.exp(a.t, 1), g.exp(a.t, 1))}})
+			feats = append(feats, "map_call")
+		default:
+			st.binds = append(st.binds, c07NamedBind{a.id, c07Bind{e: g.exp(a.t, 0)}})
+		}
+	}
+	if near() {
+		st.binds = append(st.binds, c07NamedBind{"nosuch", c07Bind{e: c07Int(1)}})
+		feats = append(feats, "unknown")
+	}
+	if near() && len(st.binds) > 0 {
+		st.binds = append(st.binds, st.binds[0])
+		feats = append(feats, "duplicate")
+	}
+	if near() {
+		st.wild = &c07Wild{self: true}
+		feats = append(feats, "wildcard")
+	}
+	if near() {
+		switch rng.Intn(4) {
+		case 0:
+			st.mods.kwP = true
+		case 1:
+			st.mods.kwV = true
+		case 2:
+			st.mods.using = append(st.mods.using, c07ModItem{tag: 'L', b: true})
+		default:
+			st.mods.using = append(st.mods.using, c07ModItem{tag: 'D', e: c07Ref('r', "x")})
+		}
+		feats = append(feats, "modifier")
+	}
+	// the statement is written with the same printer as a call inside a pipeline
+	wrapper := &c07Pipe{name: "ZZ", calls: []*c07PStm{st}}
+	var tb strings.Builder
+	wrapper.text(&tb)
+	lines := strings.Split(tb.String(), "\n")
+	// lines[0..2] = `pipeline ZZ(`, `)`, `{`; the call is lines[3 .. st.last-1]
+	callText := strings.Join(lines[st.first-1:st.last], "\n") + "\n"
+	base := strings.Count(src, "\n")
+	lo, hi := base+1, base+(st.last-st.first)+1
+	full := src + callText
+	rep := c.Drv.Ask("C07.top", st.enc())
+	_, cerr := c07CompileWithPaths(full, paths)
+	r.count(full, true)
+	r.hist("top_call")
+	for _, f := range feats {
+		r.hist("top_call_feature_" + f)
+	}
+	in := map[string]interface{}{"program": full, "model": rep}
+	if cerr != nil {
+		in["compiler_error"] = cerr.Error()
+	}
+	if !strings.HasPrefix(rep, "ok") && !strings.HasPrefix(rep, "bad ") {
+		r.violate(Violation{Kind: "correspondence", Key: "C07:top:driver:" + firstWord(rep), What: "the driver could not judge a top-level call: " + rep, Input: in, Broken: "Driver.C07.diagTop ~ validTop"})
+		return
+	}
+	modelOk := strings.HasPrefix(rep, "ok")
+	r.hist(fmt.Sprintf("top_call_model=%v_impl=%v", modelOk, cerr == nil))
+	if cerr != nil && strings.HasPrefix(cerr.Error(), "PANIC") {
+		r.violate(Violation{Kind: "property", Key: "C07:top:compiler-panic", What: "the compiler panics on a top-level call: " + firstLine(cerr.Error()), Input: in})
+		return
+	}
+	if modelOk != (cerr == nil) {
+		r.violate(Violation{Kind: "correspondence", Key: fmt.Sprintf("C07:top:accept:model=%v,impl=%v", modelOk, cerr == nil),
+			What: "the model's checkTop and the real compiler disagree on a top-level call statement", Input: in, Model: rep, Impl: fmt.Sprint(cerr),
+			Broken: "correspondence checkTop ~ Ast.compileCall"})
+		return
+	}
+	if !modelOk {
+		hit := false
+		for ln := range c07ErrClasses(cerr) {
+			if ln >= lo && ln <= hi {
+				hit = true
+			}
+		}
+		if !hit {
+			r.violate(Violation{Kind: "property", Key: "C07:top:location", What: "the compile error of a rejected top-level call is not located in the call statement",
+				Input: in, Expect: fmt.Sprintf("lines %d-%d", lo, hi), Impl: firstLine(cerr.Error())})
+		}
+		return
+	}
+	if err := c07CallGraphPaths(full, paths); err != nil {
+		key := "C07:top:accepted-but-callgraph-fails"
+		if strings.Contains(err.Error(), "cannot be bound inside an untyped map") || strings.Contains(err.Error(), "cannot be assinged to untyped map: contains reference") {
+			key = c07UntypedMapKey
+		}
+		r.violate(Violation{Kind: "property", Key: key, What: "an accepted top-level call cannot be resolved: " + firstLine(err.Error()),
+			Input: map[string]interface{}{"program": full, "error": err.Error()}})
 	}
 }
 
@@ -1106,6 +1447,12 @@ stage PRE(
     src comp "fake",
 )
 
+stage OTHER(
+    in  int x,
+    out int r,
+    src comp "fake",
+)
+
 pipeline P(
     in  int a,
     out int r,
@@ -1119,8 +1466,12 @@ pipeline P(
         xs = [PROD.a],
     )
 
+    call OTHER(
+        x = self.a,
+    )
+
     return (
-        r = PROD.a,
+        r = OTHER.r,
     )
 }
 
@@ -1130,13 +1481,14 @@ call P(
 `
 
 // c07PreflightWitness replays Props.C07.preflight_nested_ref_witness on the
-// real compiler: a preflight stage whose input is bound to the output of
-// another call INSIDE an array literal is accepted (PreflightBindingError only
-// looks at the kind of the whole binding).  At run time every other stage waits
-// for the preflight stage, which waits for PROD: observed on the real runtime
-// (Tier A, TA_MRO=<this program>) as a fatal Go stack overflow in
-// Node.getState (mutual recursion over the prenode cycle).  The run-time part
-// is not replayed here (the fatal error cannot be recovered in-process).
+// real code: a preflight stage whose input is bound to the output of another
+// call INSIDE an array literal is accepted by the compiler (PreflightBindingError
+// only looks at the kind of the whole binding; the pinned suite contains such a
+// call).  Before repair 937256c every other stage, PROD included, waited for the
+// preflight stage and mrp died with a stack overflow in Node.getState; now the
+// stages a preflight stage depends on do not wait for it.  The program (with a
+// third stage OTHER) is run in Tier A: it must complete, PRE must be launched
+// after PROD has finished and OTHER after PRE has finished.
 func c07PreflightWitness(c *Ctx) {
 	r := c.Res
 	r.hist("witness_preflight_nested_call_ref")
@@ -1148,15 +1500,46 @@ func c07PreflightWitness(c *Ctx) {
 			Input: map[string]interface{}{"program": c07PreflightNestedSrc}, Broken: "Props.C07.preflight_nested_ref_witness"})
 		return
 	}
-	if cerr == nil {
-		r.violate(Violation{Kind: "property", Key: "C07:preflight-nested-call-ref",
-			What: "a preflight stage bound to the output of another call inside an array literal (`xs = [PROD.a]`) is accepted; at run time the two stages wait for each other (observed: fatal stack overflow of mrp in Node.getState)",
-			Input: map[string]interface{}{"program": c07PreflightNestedSrc, "model": rep}, Broken: "preflight_isolated (full statement; see Props.C07.preflight_nested_ref_witness)"})
-	} else if !strings.Contains(cerr.Error(), "PreflightBindingError") {
-		r.violate(Violation{Kind: "correspondence", Key: "C07:pipe:preflight-witness-other-error", What: "the preflight witness is rejected, but not as PreflightBindingError: " + firstLine(cerr.Error()),
+	if cerr != nil {
+		if strings.Contains(cerr.Error(), "PreflightBindingError") {
+			r.note("the preflight witness (nested call reference) is now rejected by the compiler: update Martian.Typing.isCallRef / Props.C07.preflight_nested_ref_witness")
+		} else {
+			r.violate(Violation{Kind: "correspondence", Key: "C07:pipe:preflight-witness-other-error", What: "the preflight witness is rejected, but not as PreflightBindingError: " + firstLine(cerr.Error()),
+				Input: map[string]interface{}{"program": c07PreflightNestedSrc}})
+		}
+		return
+	}
+	p, err := compileProgram("preflight-witness", c07PreflightNestedSrc, nil)
+	if err != nil {
+		r.violate(Violation{Kind: "property", Key: "C07:preflight-nested-call-ref", What: "the accepted preflight witness cannot be invoked: " + firstLine(err.Error()),
 			Input: map[string]interface{}{"program": c07PreflightNestedSrc}})
-	} else {
-		r.note("the preflight witness (nested call reference) is now rejected by the compiler: update Martian.Typing.isCallRef / Props.C07.preflight_nested_ref_witness and drop the known finding")
+		return
+	}
+	taInit()
+	for _, cs := range runCases(c, []*rtProgram{p}, 1, TASpec{}) {
+		res := cs.res
+		r.hist("witness_preflight_tiera_" + finalClass(res.Final))
+		finished := map[string]int{}
+		launched := map[string]int{}
+		for _, e := range res.Events {
+			for _, st := range []string{"PROD", "PRE", "OTHER"} {
+				if strings.Contains(e.Job, ".P."+st+".") {
+					if e.Kind == "launch" && launched[st] == 0 {
+						launched[st] = e.Seq + 1
+					}
+					if e.Kind == "finish" {
+						finished[st] = e.Seq + 1
+					}
+				}
+			}
+		}
+		ordered := finished["PROD"] > 0 && launched["PRE"] > finished["PROD"] && finished["PRE"] > 0 && launched["OTHER"] > finished["PRE"]
+		if res.Final != "complete" || !ordered {
+			r.violate(Violation{Kind: "property", Key: "C07:preflight-nested-call-ref",
+				What: "a preflight stage bound to the output of another call inside an array literal (`xs = [PROD.a]`) is accepted, but the pipestance does not run PROD, then PRE, then the rest to completion: final " +
+					finalClass(res.Final) + " " + firstLine(res.ErrMsg),
+				Input: map[string]interface{}{"program": c07PreflightNestedSrc, "launched": launched, "finished": finished, "error": res.ErrMsg, "history": excerpt(res.Events, 60)}})
+		}
 	}
 }
 
@@ -1167,8 +1550,10 @@ func c07PreflightWitnessEnc() string {
 		calls: []*c07PStm{
 			{id: "PROD", callee: prod, binds: []c07NamedBind{{"seed", c07Bind{e: c07Ref('r', "a")}}}},
 			{id: "PRE", callee: pre, binds: []c07NamedBind{{"xs", c07Bind{e: c07Arr(c07Ref('c', "PROD", "a"))}}}, mods: c07Mods{kwP: true}},
+			{id: "OTHER", callee: &c07PCallee{name: "OTHER", isStage: true, params: []c17Field{{"x", c07B("int")}}, outs: []c17Field{{"r", c07B("int")}}},
+				binds: []c07NamedBind{{"x", c07Bind{e: c07Ref('r', "a")}}}},
 		},
-		ret: []c07NamedBind{{"r", c07Bind{e: c07Ref('c', "PROD", "a")}}}}
+		ret: []c07NamedBind{{"r", c07Bind{e: c07Ref('c', "OTHER", "r")}}}}
 	return p.enc()
 }
 
@@ -1255,9 +1640,170 @@ func c07UntypedMapWitness(c *Ctx) {
 	}
 }
 
+// c07WildArityStream: wildcard calls, systematically: source `* = self` /
+// `* = PROD` / `* = self.s` (struct input); the callee takes 1..3 of the members
+// plus 0..2 parameters that are not members, of which 0..all are bound
+// explicitly (so 0, 1 or 2 parameters stay unbound), with and without an
+// explicit binding that duplicates a member.
+func c07WildArityStream(c *Ctx) {
+	members := []c17Field{{"a", c07B("int")}, {"b", c07B("string")}, {"c", c07B("float")}}
+	lit := map[string]*c07Exp{"a": c07Int(1), "b": c07Str("x"), "c": c07Flo(c07Floats[0])}
+	for src := 0; src < 3; src++ {
+		for take := 1; take <= 3; take++ {
+			for extra := 0; extra <= 2; extra++ {
+				for bound := 0; bound <= extra; bound++ {
+					for _, dup := range []bool{false, true} {
+						p := &c07Pipe{name: "P", outs: []c17Field{{"r", c07B("int")}}}
+						prod := &c07PCallee{name: "PROD", isStage: true, params: []c17Field{{"seed", c07B("int")}}, outs: members}
+						callee := &c07PCallee{name: "S", isStage: true, outs: []c17Field{{"r", c07B("int")}}}
+						st := &c07PStm{id: "S", callee: callee}
+						switch src {
+						case 0:
+							p.ins = members
+							st.wild = &c07Wild{self: true}
+						case 1:
+							st.wild = &c07Wild{e: c07Ref('c', "PROD")}
+						case 2:
+							p.ins = []c17Field{{"s", c07Wide}}
+							st.wild = &c07Wild{e: c07Ref('r', "s")}
+						}
+						if len(p.ins) > 0 {
+							sink := &c07PCallee{name: "SINK", isStage: true, params: p.ins, outs: []c17Field{{"r", c07B("int")}}}
+							p.extra = append(p.extra, sink)
+							ss := &c07PStm{id: "SINK", callee: sink}
+							for _, f := range p.ins {
+								ss.binds = append(ss.binds, c07NamedBind{f.id, c07Bind{e: c07Ref('r', f.id)}})
+							}
+							p.calls = append(p.calls, ss)
+						}
+						p.extra = append(p.extra, prod, callee)
+						p.calls = append(p.calls, &c07PStm{id: "PROD", callee: prod, binds: []c07NamedBind{{"seed", c07Bind{e: c07Int(1)}}}})
+						callee.params = append(callee.params, members[:take]...)
+						for i := 0; i < extra; i++ {
+							x := c17Field{fmt.Sprintf("x%d", i), c07B("int")}
+							callee.params = append(callee.params, x)
+							if i < bound {
+								st.binds = append(st.binds, c07NamedBind{x.id, c07Bind{e: c07Int(int64(i))}})
+							}
+						}
+						if dup {
+							st.binds = append(st.binds, c07NamedBind{"a", c07Bind{e: lit["a"]}})
+						}
+						p.calls = append(p.calls, st)
+						p.ret = []c07NamedBind{{"r", c07Bind{e: c07Ref('c', "S", "r")}}}
+						p.features = []string{fmt.Sprintf("wild_arity_missing_%d", extra-bound)}
+						c07JudgePipe(c, p, "wild_arity")
+					}
+				}
+			}
+		}
+	}
+}
+
+// c07UnusedInputStream: one pipeline input `u`, used in exactly one place (or
+// nowhere): deep inside a literal of a call binding, under split, as the
+// `disabled` modifier, through `* = self`, through `* = self.u` (struct input),
+// in a return binding (plain, nested in a literal, wildcard), only in the retain
+// list (does not count), not at all.
+func c07UnusedInputStream(c *Ctx) {
+	for variant := 0; variant < 11; variant++ {
+		ut := c07B("int")
+		switch variant {
+		case 2:
+			ut = c07B("bool")
+		case 4, 8:
+			ut = c07Pair
+		case 9:
+			ut = c07B("file")
+		}
+		p := &c07Pipe{name: "P", ins: []c17Field{{"u", ut}}, outs: []c17Field{{"r", c07B("int")}}}
+		callee := &c07PCallee{name: "S", isStage: true, params: []c17Field{{"x", c07A(c07B("int"))}}, outs: []c17Field{{"r", c07B("int")}, {"f", c07B("file")}}}
+		st := &c07PStm{id: "S", callee: callee, binds: []c07NamedBind{{"x", c07Bind{e: c07Arr(c07Int(1))}}}}
+		p.ret = []c07NamedBind{{"r", c07Bind{e: c07Ref('c', "S", "r")}}}
+		u := c07Ref('r', "u")
+		switch variant {
+		case 0: // deep in a literal
+			st.binds[0].b.e = c07Arr(c07Int(1), u)
+		case 1: // under split
+			callee.params[0].t = c07B("int")
+			st.binds[0].b = c07Bind{split: true, e: c07Arr(u, c07Int(2))}
+		case 2: // disabled modifier only
+			st.mods.using = []c07ModItem{{tag: 'D', e: u}}
+		case 3: // `* = self`
+			callee.params = append(callee.params, c17Field{"u", ut})
+			st.wild = &c07Wild{self: true}
+		case 4: // `* = self.u` (struct PAIR: members a, b)
+			callee.params = append(callee.params, c17Field{"a", c07B("int")})
+			st.wild = &c07Wild{e: u}
+		case 5: // return binding
+			p.ret[0].b.e = u
+		case 6: // nested in a return literal
+			p.outs[0].t = c07A(c07B("int"))
+			p.ret[0].b.e = c07Arr(c07Ref('c', "S", "r"), u)
+		case 7: // return wildcard `* = self`
+			p.outs = append(p.outs, c17Field{"u", ut})
+			p.retWild = &c07Wild{self: true}
+		case 8: // return wildcard `* = self.u`
+			p.outs = append(p.outs, c17Field{"b", c07B("string")})
+			p.retWild = &c07Wild{e: u}
+		case 9: // only retained
+			p.retain = []*c07Exp{u}
+		case 10: // not at all
+		}
+		p.extra = []*c07PCallee{callee}
+		p.calls = []*c07PStm{st}
+		p.features = []string{fmt.Sprintf("unused_input_variant_%d", variant)}
+		c07JudgePipe(c, p, "unused_input")
+	}
+}
+
+// c07NestedRuntime: the delivered-value oracle for nested (mapped) pipelines:
+// programs of the pipeline stream that model and compiler accept and that call
+// a nested pipeline are run in Tier A at enforcement level error with
+// type-conforming fake stage outputs; the run time validates every argument it
+// delivers, so any final state other than complete is a violation.
+func c07NestedRuntime(c *Ctx, max int) {
+	r := c.Res
+	var progs []*rtProgram
+	for i, src := range c07NestedRun {
+		if len(progs) >= max {
+			break
+		}
+		p, err := compileProgram(fmt.Sprintf("pipe%d", i), src, nil)
+		if err != nil {
+			r.note("nested program no longer compiles for Tier A: %v", firstLine(err.Error()))
+			continue
+		}
+		progs = append(progs, p)
+	}
+	c07NestedRun = nil
+	if len(progs) == 0 {
+		return
+	}
+	taInit()
+	for _, cs := range runCases(c, progs, 1, TASpec{}) {
+		res := cs.res
+		r.hist("pipe_tiera_final_" + finalClass(res.Final))
+		r.count(cs.prog.Src, true)
+		if res.Final == "complete" {
+			continue
+		}
+		if res.Final == "compile-error" {
+			r.violate(Violation{Kind: "property", Key: "C07:invoke-rejects-compiled:" + firstLine(res.Compile),
+				What: "program compiles but cannot be invoked: " + firstLine(res.Compile), Input: map[string]interface{}{"program": cs.prog.Src}})
+			continue
+		}
+		r.violate(Violation{Kind: "property", Key: "C07:runtime:" + classifyRuntimeError(res.Final, res.ErrMsg),
+			What:  "a generated program with a nested pipeline, accepted by model and compiler, run with type-conforming stage outputs, ended " + finalClass(res.Final) + ": " + firstLine(res.ErrMsg),
+			Input: map[string]interface{}{"program": cs.prog.Src, "spec": cs.spec.Name, "seed": cs.spec.Seed, "error": res.ErrMsg, "history": excerpt(res.Events, 120)}})
+	}
+}
+
 func c07Pipelines(c *Ctx) {
 	c07PreflightWitness(c)
 	c07UntypedMapWitness(c)
+	c07WildArityStream(c)
+	c07UnusedInputStream(c)
 	n := 700
 	if c.Thorough {
 		n = 5000
@@ -1270,4 +1816,9 @@ func c07Pipelines(c *Ctx) {
 		m = 3000
 	}
 	c07StageRetainStream(c, m)
+	k := 40
+	if c.Thorough {
+		k = 400
+	}
+	c07NestedRuntime(c, k)
 }
